@@ -364,4 +364,56 @@ def tryWrite2Check (s : WStream) (send : Option Int) : Option Int :=
     let e := checkBeforeWrite s send
     if e < 0 then some e else none
 
+/-! ## sending a handle: `uv_write2` queueing + `uv__write` (stream.c:840-898, 754-838)
+
+One `attempt` = one iteration of the `uv__write` loop on the head request: a `sendmsg` carrying
+`req->send_handle` as SCM_RIGHTS when it is still set, else `write/writev`; `r ≥ 0` bytes accepted by the
+kernel, `r < 0` a UV error.  Payload is abstracted to its byte count (buffer bookkeeping is C05). -/
+
+structure WReq where
+  id : Nat
+  remaining : Nat
+  handle : Option Nat        -- `req->send_handle` (descriptor identity), cleared after the first successful syscall
+deriving Repr, DecidableEq
+
+structure SSt where
+  queue : List WReq := []                       -- stream->write_queue
+  nextId : Nat := 0
+  orig : List (Nat × Option Nat) := []          -- ghost: what each uv_write2 was asked to send
+  log : List (Nat × Option Nat × Int) := []     -- every syscall: (request, descriptor attached, result)
+  done : List (Nat × Int) := []                 -- finished requests with status
+deriving Repr
+
+/-- `uv_write2` after the checks: append the request (stream.c:1355-1377) -/
+def enq (s : SSt) (bytes : Nat) (h : Option Nat) : SSt :=
+  { s with queue := s.queue ++ [⟨s.nextId, bytes, h⟩], nextId := s.nextId + 1, orig := s.orig ++ [(s.nextId, h)] }
+
+/-- one iteration of the `uv__write` loop (stream.c:858-878, 893-895) -/
+def attempt (s : SSt) (r : Int) : SSt :=
+  match s.queue with
+  | [] => s
+  | req :: rest =>
+    let s := { s with log := s.log ++ [(req.id, req.handle, r)] }
+    if 0 ≤ r then
+      -- `req->send_handle = NULL` (stream.c:869), then uv__write_req_update
+      let left := req.remaining - r.toNat
+      if left == 0 then { s with queue := rest, done := s.done ++ [(req.id, 0)] }
+      else { s with queue := { req with handle := none, remaining := left } :: rest }
+    else if r == EAGAIN then s
+    else { s with queue := rest, done := s.done ++ [(req.id, r)] }
+
+inductive SOp | enq (bytes : Nat) (h : Option Nat) | attempt (r : Int)
+deriving Repr
+
+def sstep (s : SSt) : SOp → SSt
+  | .enq b h => enq s b h
+  | .attempt r => attempt s r
+
+def srun (s : SSt) (ops : List SOp) : SSt := ops.foldl sstep s
+
+/-- successful syscalls of request `r` that carried a descriptor -/
+def carried (s : SSt) (r : Nat) : Nat := s.log.countP fun e => e.1 == r && e.2.1.isSome && decide (0 ≤ e.2.2)
+/-- successful syscalls of request `r` -/
+def succeeded (s : SSt) (r : Nat) : Nat := s.log.countP fun e => e.1 == r && decide (0 ≤ e.2.2)
+
 end UvModel.Accept
